@@ -524,7 +524,17 @@ def _check_round(repo, rep):
                     if repr(simplify_num(v) if isinstance(v, RF) else v) not in (repr(want), repr(simplify_num(fn_atom("round", v0, nd)))):
                         probs.append(f"argument {v0} of {c} comes out as {v}; round({v0}, ndigits) expected on every path ({o.cond_text()[:80]})")
             for fld, sym in (("opacity", "op"), ("stroke_width", "sw")):
-                if any((not v) and "isfloat" in repr(c) and sym in repr(c) for c, v in o.decisions):
+                isf = None
+                for c, v in o.decisions:
+                    r = repr(c)
+                    if "isfloat" in r and sym in r:
+                        neg = 0
+                        while r.startswith("not ") or r.startswith("not("):
+                            r = r[4:] if r.startswith("not ") else r[4:-1]
+                            r = r[1:-1] if r.startswith("(") and r.endswith(")") else r
+                            neg += 1
+                        isf = v if neg % 2 == 0 else (not v)
+                if isf is False:
                     continue  # the field holds an int on this path: nothing to round
                 if repr(o.value.f.get(fld)) != repr(simplify_num(fn_atom("round", RF.sym(sym), nd))):
                     probs.append(f"field {fld} comes out as {o.value.f.get(fld)}; float fields are rounded to ndigits as well")
